@@ -5,49 +5,63 @@ Deductive part (real code symbolically executed, SHA-256 an uninterpreted functi
 * `Ledger.get_root_of_merkle_tree` equals the Merkle fold written from the definition (sibling on the left iff
   bit i of the position is set, double SHA-256 of the concatenation, siblings supplied as reversed hex, result as
   reversed hex) for branches of ANY length (loop invariant `_fold_inv`, proof `root[any]`) and, as unrolled
-  counterexample finders with an independently written iterative oracle, for lengths 0..7 (`root[k]`), arbitrary
-  strings as branch elements (a non-hex element raises ValueError, nothing else does) and any integer position.
+  counterexample finders with an independently written iterative oracle, for lengths 0..3 (`root[k]`; 4..7 in the thorough
+  tier), arbitrary strings as branch elements (a non-hex element raises ValueError, nothing else does), any integer position.
 * `Ledger.maybe_verify_transaction`, run on a duck-typed ledger whose header store is the REAL `Headers` object over
   an arbitrary symbolic header file of arbitrary size (`Headers.get/get_raw_header/_read/deserialize` are executed),
   a real `Transaction` and a recording fake network: after the call `is_verified` is EXACTLY
   "fold(txid, branch, pos) == bytes 36..68 of the 112-byte header at that height" whenever 0 < height < number of
   headers and a branch was supplied (directly or fetched), whatever the flag was before; a height without header, a
   reply without branch, or a non-hex branch never turn the flag on; the height and position recorded are the ones
-  checked; the proof dict's own `block_height` is ignored.  Branch length arbitrary (`verify[any]`) and 0..4 unrolled
-  for every reply shape (`verify[k]`).
+  checked; the proof dict's own `block_height` is ignored.  Branch of ANY length (`verify[any]`), every reply shape with
+  length 1 (`verify[shapes]`), lengths 0, 2, 3, 4 unrolled in the thorough tier (`verify[k]`).
 * `Ledger._single_batch` (call-site precondition): every transaction of a batch reaches maybe_verify_transaction as a
   fresh object (flag off) with the height the wallet asked for and its own proof (`single_batch`).
-* completeness: for every block of 1..16 transactions (quick tier; 17..64 in the thorough tier) with symbolic leaves and
-  every index, the branch built by the Bitcoin Merkle-tree definition (odd levels duplicate the last node) folds to the
-  tree root through the real function (`genuine[n]`).
+* completeness: for blocks of 1, 2, 3, 5, 6, 7 transactions (quick tier; 1..17, 31..33, 47, 48, 63, 64 in the thorough tier)
+  with symbolic leaves and every index, the branch built by the Bitcoin Merkle-tree definition (odd levels duplicate the last
+  node) folds to the tree root through the real function (`genuine[n]`).
 * mutations, under the named hypothesis "SHA-256 has no collision on the strings hashed in the two runs" (instances
   in `requires`, see `no_collision`): with the same position, equal roots force equal transaction hash and equal
-  branch (`alter-tx-or-branch[k]`); flipping position bit j < k changes the root unless the sibling at level j
-  equals the running hash (`alter-pos[k]`).
+  branch (`alter-tx-or-branch[1..3]`, thorough 4, 5, 6); flipping position bit j < k changes the root unless the sibling at
+  level j equals the running hash (`alter-pos[1..2]`, thorough 3, 4, 5).
 
-Known finding C08-P1 (recorded in known_findings.d/C08.json, proof `blocks[1..64]`): the position is not bound by the
-proof where it does not influence the fold: (a) bits at or above the branch length are ignored (a 1-transaction block
-verifies with ANY position), (b) at a level where the last node was duplicated the sibling equals the running hash, so
-flipping that bit gives the same root (3-transaction block, index 2, position 3 is accepted and recorded).  The clause
-"altering the position makes verification fail" is kept; `alter-pos[k]` and the bounded stand-in exclude exactly the
-predicate `position_bit_is_blind` and the witness is re-run on every check.
+Known finding C08-P1 (known_findings.d/C08.json, reported through proof `position-bound[1..64]`): the position is not
+bound by the proof where it does not influence the fold: (a) bits at or above the branch length are ignored (a
+1-transaction block verifies with ANY position), (b) at a level where the last node was duplicated the sibling equals
+the running hash, so flipping that bit gives the same root (3-transaction block, index 2, position 3 is accepted and
+recorded).  The clause "altering the position makes verification fail" is kept without exclusion in
+`position-bound[1..64]`; `alter-pos[*]` and `blocks[1..64]` exclude exactly the predicate `position_bit_is_blind`.
 
 Bounded stand-ins (run-time contract checks on the real code with the real SHA-256, never counted as proved):
-`blocks[1..64]` — every block size 1..64, every index, the genuine proof and every single mutation (each branch
-element, each position bit 0..len, branch truncated / extended, transaction byte, height +-1 and a height without header)
-through the real maybe_verify_transaction; `claimtrie.verify_proof` — the legacy claim-trie proof checker on small tries.
+`blocks[1..64]` — every block size 1..64, every index: the genuine proof is accepted and every single mutation (each branch
+element, neighbours swapped, branch truncated / extended, 16 single-bit changes of the transaction, 7 other heights, every
+position bit outside the known finding) is rejected, through the real maybe_verify_transaction; `position-bound[1..64]` —
+every position bit 0..branch length of every such proof; `claimtrie.verify_proof` — the legacy claim-trie proof checker on
+4 small tries (genuine proofs accepted, 215 single mutations refused).
+
+Under a mutated tree the refuted obligations are mostly answered 'unknown' by the solvers (a counter-model has to interpret
+SHA-256 over strings), so violations are reported by the run-time contract checks of the same proofs (`::runtime-contract`).
 """
 import asyncio
 import hashlib
 from binascii import hexlify, unhexlify
 from pyvc.api import *
-from pyvc.speclib import implies, forall, exists, matches
+from pyvc.speclib import forall, matches
 from lbry.wallet.ledger import Ledger
 from lbry.wallet.header import Headers
-from lbry.wallet.transaction import Transaction, Output
+from lbry.wallet.transaction import Transaction, Output, Input, TXORef
+from lbry.wallet.hash import TXRefImmutable
+from lbry.wallet.script import InputScript
 from lbry.wallet import claim_proofs
 
 H32 = TBytes(length=32)
+# solver budget per query for the proofs of the quick tier (seconds; they discharge in well under a second): a refuted
+# obligation that mentions the uninterpreted SHA-256 is usually answered 'unknown' by all three solvers, so with the default 10 s a
+# broken tree would keep the check busy for tens of minutes before the run-time contract checks get to report the violation
+QUICK_BUDGET = 3
+# proofs that only run in the thorough tier: that tier asks all three solvers on every obligation and the slower two need their
+# whole budget on the big ones, so the default of 60 s would make the tier run for many hours
+THOROUGH_BUDGET = 6
 U32 = TInt(0, 2 ** 32 - 1)
 HEADER_SIZE = 112          # LBRY block header: version 4 | previous hash 32 | merkle root 32 | claim trie root 32 | time, bits, nonce 12
 ROOT_OFFSET = 36
@@ -124,7 +138,16 @@ def is_hex(s):
 
 
 def all_hex(sib):
+    """for a list of symbolic length"""
     return forall(0, len(sib), lambda j: is_hex(sib[j]))
+
+
+def all_hex_list(sib):
+    """the same for a list of concrete length"""
+    ok = True
+    for s in sib:
+        ok = ok and is_hex(s)
+    return ok
 
 
 def merkle_levels(leaves):
@@ -162,9 +185,14 @@ def tx_leaf(version, locktime):
     return dsha(le(version, 4) + b'\x00' + b'\x00' + le(locktime, 4))
 
 
+def header_at(blob, height):
+    """the header file is the concatenation of the 112-byte headers in height order"""
+    return blob[HEADER_SIZE * height: HEADER_SIZE * height + HEADER_SIZE]
+
+
 def root_at(blob, height):
-    """Merkle-root field of the header stored at `height` in the header file"""
-    return blob[HEADER_SIZE * height + ROOT_OFFSET: HEADER_SIZE * height + ROOT_OFFSET + 32]
+    """Merkle-root field of the header stored at `height`"""
+    return header_at(blob, height)[ROOT_OFFSET: ROOT_OFFSET + 32]
 
 
 # ---------------------------------------------------------------- branch folding: any length (loop invariant)
@@ -183,6 +211,7 @@ class RootAny:
     inputs = dict(leaf=H32, pos=TInt(), sib=TList(TStr()))
     raises = {ValueError: lambda sib: not all_hex(sib)}
     note = "branch lengths 0..8, positions -3..2**len+1, non-hex elements"
+    timeout = QUICK_BUDGET
 
     def run(leaf, pos, sib):
         return Ledger.get_root_of_merkle_tree(sib, pos, leaf)
@@ -206,9 +235,6 @@ def make_root_proof(k):
     def ensures_is_merkle_fold(leaf, pos, sib, result):
         return result == hexlify(fold_wire(leaf, sib, pos)[::-1])
 
-    def ensures_wire_form(result):
-        return isinstance(result, bytes) and len(result) == 64
-
     def samples():
         for pos in list(range(-2, 2 ** k + 2)):
             yield dict(leaf=bytes([7]) * 32, pos=pos, sib=[wire(bytes([i + 1, pos % 256]) * 16) for i in range(k)])
@@ -217,8 +243,8 @@ def make_root_proof(k):
             yield dict(leaf=bytes(32), pos=0, sib=[wire(bytes(32))] * (k - 1) + ['0g'])
 
     body = dict(inputs=dict(leaf=H32, pos=TInt(), sib=TList(TStr(), n=k)), run=staticmethod(run),
-                raises={ValueError: lambda sib: not all_hex(sib)},
-                ensures_is_merkle_fold=staticmethod(ensures_is_merkle_fold), ensures_wire_form=staticmethod(ensures_wire_form),
+                raises={ValueError: lambda sib: not all_hex_list(sib)},
+                ensures_is_merkle_fold=staticmethod(ensures_is_merkle_fold), thorough_only=(k > 3), timeout=THOROUGH_BUDGET if k > 3 else QUICK_BUDGET,
                 samples=staticmethod(samples),
                 note=f"every position -2..2**{k}+1, lower- and upper-case hex, one non-hex element",
                 __doc__=f"branch of length {k} unrolled: result is the reversed hex of the fold written iteratively from the definition "
@@ -233,44 +259,29 @@ for _k in range(0, 8):
 # ---------------------------------------------------------------- maybe_verify_transaction on the real header store
 
 def engine_setup():
-    """natively nothing; symbolically it installs a reader for struct format '<III' (three consecutive '<I' fields,
-    struct.error unless 12 bytes) — Headers.deserialize needs it (engine gap C08_2)"""
+    """natively nothing; symbolically it installs the syntactic shortcut unhexlify(hexlify(x)) = x (engine gap C08_3)"""
     return None
 
 
 @model_for(engine_setup)
 def _engine_setup(interp, st, args, kwargs):
-    import struct
     import z3
-    from pyvc.values import VInt, VNone, VTuple, Raise
-    from pyvc.ops import unlift
-    from pyvc.segs import unpack_model, struct_error, to_vbytes, VSegs
-    orig = interp.models[struct.unpack]
-    if not getattr(orig, '_c08', False):
-        def unpack(interp, st, args, kwargs):
-            if unlift(args[0]) != '<III':
-                yield from orig(interp, st, args, kwargs)
+    from pyvc.values import VNone, VBytes
+    import binascii
+    from pyvc.builtins_model2 import BUILTIN_MODELS
+    orig_unhex = interp.models.get(binascii.unhexlify) or BUILTIN_MODELS[binascii.unhexlify]
+    if not getattr(orig_unhex, '_c08', False):
+        def unhex(interp, st, args, kwargs, node=None):
+            v = args[0]
+            t = getattr(v, 'v', None)
+            if not v.concrete and z3.is_app(t) and t.decl().name() == 'hexlify':
+                # unhexlify(hexlify(x)) == x applied syntactically (the trusted inverse law; the generic model forks an
+                # infeasible binascii.Error path whose refutation costs the solvers seconds: engine gap C08_3)
+                yield st, VBytes(t.arg(0))
                 return
-            data = to_vbytes(args[1]) if isinstance(args[1], VSegs) else args[1]
-            ok = z3.Length(data.term()) == 12
-
-            def go(s, i, acc):
-                if i == 3:
-                    yield s, VTuple(acc)
-                    return
-                for s2, piece in interp.bm.getitem(interp, s, data, ('slice', VInt(4 * i), VInt(4 * i + 4), VNone)):
-                    for s3, tup in unpack_model(interp, s2, '<I', piece):
-                        if isinstance(tup, Raise):
-                            yield s3, tup
-                        else:
-                            yield from go(s3, i + 1, acc + [tup.items[0]])
-            for s1, r in interp.alts(st, [(ok, 'ok'), (z3.Not(ok), 'bad')]):
-                if r == 'bad':
-                    yield s1, struct_error()
-                else:
-                    yield from go(s1, 0, [])
-        unpack._c08 = True
-        interp.models[struct.unpack] = unpack
+            yield from orig_unhex(interp, st, args, kwargs)
+        unhex._c08 = True
+        interp.models[binascii.unhexlify] = unhex
     yield st, VNone
 
 
@@ -361,7 +372,7 @@ async def verify_harness(version, locktime, prior, height, size, blob, sib, pos,
     return tx.is_verified, tx.height, tx.position, net.asked, raised, tx.id
 
 
-def verify_clauses(fold_of):
+def verify_clauses(fold_of, all_hex_of):
     """clauses of the statement; fold_of(leaf, sib, pos) is the oracle fold (iterative or recursive form)"""
 
     def ensures_verified_iff_branch_folds_to_header_root(version, locktime, height, size, blob, sib, pos, shape, result):
@@ -373,7 +384,7 @@ def verify_clauses(fold_of):
         return (not (unverifiable and not prior)) or result[0] == False    # noqa
 
     def ensures_only_non_hex_raises(sib, result):
-        return (not result[4]) or not all_hex(sib)
+        return (not result[4]) or not all_hex_of(sib)
 
     def ensures_height_and_position_recorded(height, size, pos, shape, result):
         checked = has_branch(shape) and 0 < height < size and not result[4]
@@ -434,7 +445,7 @@ def verify_samples(ks):
 
 
 def _verify_any_samples():
-    for s in verify_samples((5, 6)):
+    for s in verify_samples((0, 2, 5, 6)):
         if s['shape'] in ('supplied', 'fetched'):
             yield s
 
@@ -447,27 +458,601 @@ proof("C08", "verify[any]")(type('VerifyAny', (), dict(
     inputs=dict(version=U32, locktime=U32, prior=TBool(), height=TInt(), size=TInt(0), blob=TBytes(), sib=TList(TStr()),
                 pos=TInt(), bh=TInt(), shape=TOneOf(TConst('supplied'), TConst('fetched'))),
     requires=staticmethod(_blob_matches_size), run=staticmethod(verify_harness), samples=staticmethod(_verify_any_samples),
-    note="branch lengths 5..6 x header at the right / neighbouring / no height x heights inside, at and beyond the tip",
+    timeout=QUICK_BUDGET,
+    note="branch lengths 0, 2, 5, 6 x header at the right / neighbouring / no height x heights inside, at and beyond the tip",
     __doc__="maybe_verify_transaction with a branch of ANY length (loop invariant inside), supplied or fetched, over an arbitrary "
             "header file of any size, any earlier value of the flag: verified iff the fold equals the Merkle root field of the "
             "header AT THAT HEIGHT; never turned on without header / after a non-hex branch; height and position recorded",
-    **verify_clauses(fold_any))))
+    **verify_clauses(fold_any, all_hex))))
 
 
-def make_verify_proof(k):
+def make_verify_proof(name, k, shapes, thorough=False):
     def samples():
-        yield from verify_samples((k,))
+        for smp in verify_samples((k,)):
+            if smp['shape'] in shapes:
+                yield smp
 
-    proof("C08", f"verify[{k}]")(type('VerifyProof', (), dict(
+    proof("C08", f"verify[{name}]")(type('VerifyProof', (), dict(
         inputs=dict(version=U32, locktime=U32, prior=TBool(), height=TInt(), size=TInt(0), blob=TBytes(), sib=TList(TStr(), n=k),
-                    pos=TInt(), bh=TInt(), shape=TOneOf(*[TConst(s) for s in SHAPES])),
+                    pos=TInt(), bh=TInt(), shape=TOneOf(*[TConst(s) for s in shapes])),
         requires=staticmethod(_blob_matches_size), run=staticmethod(verify_harness), samples=staticmethod(samples),
+        thorough_only=thorough, timeout=THOROUGH_BUDGET if thorough else QUICK_BUDGET,
         note="positions 0..7 and around 2**k x 10 (file size, height) pairs inside / at / beyond the tip and at height <= 0 x matching "
-             "root at the right, next, previous or no height x 5 reply shapes x flag on/off before x proof dict naming another height",
-        __doc__=f"maybe_verify_transaction, branch of length {k} unrolled, every reply shape (proof supplied, fetched because none or an "
-                f"empty one was supplied, reply without branch): same clauses as verify[any] against the iterative oracle",
-        **verify_clauses(fold_wire))))
+             "root at the right, next, previous or no height x reply shapes x flag on/off before x proof dict naming another height",
+        __doc__=f"maybe_verify_transaction, branch of length {k} unrolled, reply shapes {', '.join(shapes)}: same clauses as "
+                f"verify[any] against the iterative oracle",
+        **verify_clauses(fold_wire, all_hex_list))))
 
 
-for _k in range(0, 5):
-    make_verify_proof(_k)
+make_verify_proof('shapes', 1, SHAPES)          # proof supplied / fetched because none or an empty one was supplied / reply without branch
+for _k in (0, 2, 3, 4):
+    make_verify_proof(str(_k), _k, ('supplied', 'fetched'), thorough=True)
+
+
+# ---------------------------------------------------------------- call site: Ledger._single_batch
+
+def _concrete_tx(n):
+    tx = Transaction(version=1, locktime=n)
+    tx.add_inputs([Input(TXORef(TXRefImmutable.from_hash(bytes([n + 16]) * 32, -1), n), InputScript(b'\x51'), 0xFFFFFFFF)])
+    tx.add_outputs([Output.pay_pubkey_hash(1000 + n, bytes([n]) * 20)])
+    return tx
+
+
+RAW_A, RAW_B = _concrete_tx(1).raw, _concrete_tx(2).raw          # two concrete serialised transactions
+HASH_A, HASH_B = dsha(RAW_A), dsha(RAW_B)
+TXID_A, TXID_B = wire(HASH_A), wire(HASH_B)
+HEIGHT_A, HEIGHT_B = 3, 7
+
+
+async def batch_harness(size, blob, sib_a, pos_a, sib_b, pos_b):
+    engine_setup()
+    # each proof dict names the OTHER transaction's height: only the height the wallet asked for may be used
+    reply = {TXID_A: (hexlify(RAW_A).decode(), {'merkle': sib_a, 'pos': pos_a, 'block_height': HEIGHT_B}),
+             TXID_B: (hexlify(RAW_B).decode(), {'merkle': sib_b, 'pos': pos_b, 'block_height': HEIGHT_A})}
+    net = FakeNetwork(batch_reply=reply)
+    ledger = FakeLedger(header_store(blob, size), net)
+    txs = await Ledger._single_batch(ledger, [TXID_A, TXID_B], {TXID_A: HEIGHT_A, TXID_B: HEIGHT_B})
+    a, b = txs[TXID_A], txs[TXID_B]
+    return (a.is_verified, a.height, a.position), (b.is_verified, b.height, b.position), len(txs), net.batches, net.asked
+
+
+@proof("C08", "single_batch")
+class SingleBatch:
+    """call site: every transaction of a batch is parsed into a FRESH object (flag off) and verified with the height the wallet
+    asked for and its own proof — so for transactions delivered by sync `is_verified` is exactly "proof folds to the root of
+    the header at the asked height", and false beyond the last header (two concrete transactions at heights 3 and 7, branches of
+    any length, arbitrary header file)"""
+    inputs = dict(size=TInt(0), blob=TBytes(), sib_a=TList(TStr()), pos_a=TInt(), sib_b=TList(TStr()), pos_b=TInt())
+    raises = {ValueError: lambda sib_a, sib_b: not (all_hex(sib_a) and all_hex(sib_b))}
+    note = "file sizes 0, 3, 4, 7, 8, 20 x each proof right / for the other height / wrong x branch lengths 0..3"
+
+    requires = staticmethod(_blob_matches_size)
+    run = batch_harness
+    timeout = QUICK_BUDGET
+
+    def ensures_each_verified_iff_own_proof_at_asked_height(size, blob, sib_a, pos_a, sib_b, pos_b, result):
+        want_a = HEIGHT_A < size and fold_any(HASH_A, sib_a, pos_a) == root_at(blob, HEIGHT_A)
+        want_b = HEIGHT_B < size and fold_any(HASH_B, sib_b, pos_b) == root_at(blob, HEIGHT_B)
+        return result[0][0] == want_a and result[1][0] == want_b
+
+    def ensures_heights_recorded_as_asked(result):
+        return result[0][1] == HEIGHT_A and result[1][1] == HEIGHT_B and result[2] == 2
+
+    def ensures_one_request_for_the_batch(result):
+        return result[3] == [[TXID_A, TXID_B]] and result[4] == []
+
+    def samples():
+        for k in range(0, 4):
+            sibs = [bytes([i + 1]) * 32 for i in range(k)]
+            for pa in (0, 2 ** k - 1):
+                ra, rb = fold(HASH_A, sibs, pa), fold(HASH_B, sibs, 1)
+                for size in (0, 3, 4, 7, 8, 20):
+                    for roots in ({HEIGHT_A: ra, HEIGHT_B: rb}, {HEIGHT_A: rb, HEIGHT_B: ra}, {HEIGHT_A: ra}, {HEIGHT_B: rb}, {},
+                                  {HEIGHT_A + 1: ra, HEIGHT_B - 1: rb}):
+                        yield dict(size=size, blob=make_blob(size, roots), sib_a=[wire(s) for s in sibs], pos_a=pa,
+                                   sib_b=[wire(s) for s in sibs], pos_b=1)
+
+
+# ---------------------------------------------------------------- completeness: genuine proofs of every block shape
+
+def pick(index, n):
+    """make the index concrete, one path per value"""
+    for j in range(n):
+        if index == j:
+            return j
+    return n - 1
+
+
+def sample_leaves(n, salt=0):
+    return [dsha(bytes([i, n, salt])) for i in range(n)]
+
+
+def make_genuine_proof(n, quick):
+    def run(leaves, index):
+        engine_setup()
+        i = pick(index, n)
+        branch = [wire(s) for s in merkle_branch(leaves, i)]
+        return Ledger.get_root_of_merkle_tree(branch, i, leaves[i]), len(branch)
+
+    def ensures_accepted(leaves, result):
+        return result[0] == hexlify(merkle_root(leaves)[::-1])
+
+    def ensures_branch_length_is_tree_height(result):
+        return 2 ** result[1] >= n and (result[1] == 0 or 2 ** (result[1] - 1) < n)
+
+    def samples():
+        for i in range(n):
+            yield dict(leaves=sample_leaves(n), index=i)
+
+    proof("C08", f"genuine[{n}]")(type('GenuineProof', (), dict(
+        inputs=dict(leaves=TList(H32, n=n), index=TInt(0, n - 1)), run=staticmethod(run), samples=staticmethod(samples),
+        ensures_accepted=staticmethod(ensures_accepted),
+        ensures_branch_length_is_tree_height=staticmethod(ensures_branch_length_is_tree_height),
+        thorough_only=not quick, timeout=QUICK_BUDGET if quick else THOROUGH_BUDGET,
+        note=f"every index of a {n}-transaction block of fixed pseudo-random leaves",
+        __doc__=f"block of {n} transactions (symbolic transaction hashes), every index: the branch the Bitcoin Merkle-tree definition "
+                f"gives for it folds, through the real function, to the root the definition gives for the block")))
+
+
+# quick tier: every shape of odd level up to height 3; thorough tier: every size up to 17 and the sizes around the powers of two
+# up to 64 (all 64 sizes: bounded stand-in blocks[1..64])
+for _n in list(range(1, 18)) + [31, 32, 33, 47, 48, 63, 64]:
+    make_genuine_proof(_n, _n in (1, 2, 3, 5, 6, 7))
+
+
+# ---------------------------------------------------------------- mutations of a proof (named hypothesis: no SHA-256 collision)
+
+def no_collision(l1, r1, l2, r2):
+    """the hypothesis, instantiated for one pair of hashed strings l1+r1 and l2+r2 (all four halves are 32 bytes, so the
+    strings are equal iff their halves are): neither SHA-256 application of the double hash collides on them"""
+    a = l1 + r1
+    b = l2 + r2
+    return (sha(a) != sha(b) or (l1 == l2 and r1 == r2)) and (sha(sha(a)) != sha(sha(b)) or sha(a) == sha(b))
+
+
+def hashed_pairs(leaf, siblings, pos):
+    """(left, right) halves of the 64-byte strings the definition hashes, level by level"""
+    out = []
+    h = leaf
+    for i in range(len(siblings)):
+        pair = (siblings[i], h) if bit(pos, i) == 1 else (h, siblings[i])
+        out.append(pair)
+        h = dsha(pair[0] + pair[1])
+    return out
+
+
+def running_hashes(leaf, siblings, pos):
+    out = [leaf]
+    for pair in hashed_pairs(leaf, siblings, pos):
+        out.append(dsha(pair[0] + pair[1]))
+    return out
+
+
+def no_collision_between(leaf1, sib1, pos1, leaf2, sib2, pos2):
+    a = hashed_pairs(leaf1, sib1, pos1)
+    b = hashed_pairs(leaf2, sib2, pos2)
+    ok = True
+    for i in range(len(a)):
+        ok = ok and no_collision(a[i][0], a[i][1], b[i][0], b[i][1])
+    return ok
+
+
+def on_wire(w):
+    """a branch element as transmitted: hex of the bytes w; the sibling hash it denotes is w reversed"""
+    return hexlify(w).decode()
+
+
+def denoted(ws):
+    return [w[::-1] for w in ws]
+
+
+def pick_in(v, lo, hi):
+    """make v concrete, one path per value of lo..hi"""
+    for c in range(lo, hi + 1):
+        if v == c:
+            return c
+    return hi
+
+
+def make_alter_content_proof(lo, hi, quick):
+    def requires(leaf1, w1, leaf2, w2, pos, k):
+        n = pick_in(k, lo, hi)
+        return no_collision_between(leaf1, denoted(w1[:n]), pos, leaf2, denoted(w2[:n]), pos)
+
+    def run(leaf1, w1, leaf2, w2, pos, k):
+        engine_setup()
+        n = pick_in(k, lo, hi)
+        return (Ledger.get_root_of_merkle_tree([on_wire(w) for w in w1[:n]], pos, leaf1),
+                Ledger.get_root_of_merkle_tree([on_wire(w) for w in w2[:n]], pos, leaf2))
+
+    def ensures_altered_transaction_fails(leaf1, leaf2, result):
+        return leaf1 == leaf2 or result[0] != result[1]
+
+    def ensures_altered_branch_fails(w1, w2, k, result):
+        same = True
+        for i in range(pick_in(k, lo, hi)):
+            same = same and w1[i] == w2[i]
+        return same or result[0] != result[1]
+
+    def samples():
+        leaf = dsha(b'tx')
+        ws = [dsha(bytes([i])) for i in range(hi)]
+        for k in range(lo, hi + 1):
+            for pos in sorted({0, 1, 2 ** k - 1, 2 ** k // 2}):
+                yield dict(leaf1=leaf, w1=ws, leaf2=dsha(b'ty'), w2=ws, pos=pos, k=k)
+                yield dict(leaf1=leaf, w1=ws, leaf2=leaf, w2=ws, pos=pos, k=k)
+                for j in range(k):
+                    for flip in (0, 31):
+                        m = bytearray(ws[j])
+                        m[flip] ^= 1
+                        yield dict(leaf1=leaf, w1=ws, leaf2=leaf, w2=ws[:j] + [bytes(m)] + ws[j + 1:], pos=pos, k=k)
+
+    proof("C08", f"alter-tx-or-branch[{lo}..{hi}]")(type('AlterContent', (), dict(
+        inputs=dict(leaf1=H32, w1=TList(H32, n=hi), leaf2=H32, w2=TList(H32, n=hi), pos=TInt(), k=TInt(lo, hi)),
+        requires=staticmethod(requires), run=staticmethod(run), samples=staticmethod(samples), thorough_only=not quick, timeout=QUICK_BUDGET + 1 if quick else THOROUGH_BUDGET,
+        ensures_altered_transaction_fails=staticmethod(ensures_altered_transaction_fails),
+        ensures_altered_branch_fails=staticmethod(ensures_altered_branch_fails),
+        note="another transaction hash; one bit flipped in the first / last byte of each branch element; 4 positions per length",
+        __doc__=f"branch lengths {lo}..{hi} (the first k of the given elements), same position: a different transaction hash or ANY "
+                f"difference in the branch changes the root the real function computes — hypothesis: no SHA-256 collision among the "
+                f"strings hashed in the two runs")))
+
+
+def position_bit_is_blind(leaf, sib, pos, j):
+    """predicate of known finding C08-P1: flipping bit j of the position cannot change the fold — the bit is at or above
+    the branch length, or the sibling at that level equals the running hash (duplicated last node of an odd level)"""
+    return j >= len(sib) or running_hashes(leaf, sib, pos)[j] == sib[j]
+
+
+def flip_bit(pos, j):
+    return pos + 2 ** j if bit(pos, j) == 0 else pos - 2 ** j
+
+
+def make_alter_pos_proof(lo, hi, quick):
+    def requires(leaf, ws, pos, k, j):
+        n = pick_in(k, lo, hi)
+        i = pick_in(j, 0, n - 1)
+        sib = denoted(ws[:n])
+        return j < n and (not position_bit_is_blind(leaf, sib, pos, i)) and \
+            no_collision_between(leaf, sib, pos, leaf, sib, flip_bit(pos, i))
+
+    def run(leaf, ws, pos, k, j):
+        engine_setup()
+        n = pick_in(k, lo, hi)
+        i = pick_in(j, 0, n - 1)
+        branch = [on_wire(w) for w in ws[:n]]
+        return Ledger.get_root_of_merkle_tree(branch, pos, leaf), Ledger.get_root_of_merkle_tree(branch, flip_bit(pos, i), leaf)
+
+    def ensures_altered_position_fails(result):
+        return result[0] != result[1]
+
+    def samples():
+        leaf = dsha(b'tx')
+        ws = [dsha(bytes([i])) for i in range(hi)]
+        for k in range(lo, hi + 1):
+            for pos in range(0, 2 ** k):
+                for j in range(k):
+                    yield dict(leaf=leaf, ws=ws, pos=pos, k=k, j=j)
+
+    proof("C08", f"alter-pos[{lo}..{hi}]")(type('AlterPos', (), dict(
+        inputs=dict(leaf=H32, ws=TList(H32, n=hi), pos=TInt(0), k=TInt(lo, hi), j=TInt(0, hi - 1)),
+        requires=staticmethod(requires), run=staticmethod(run), samples=staticmethod(samples), thorough_only=not quick, timeout=QUICK_BUDGET + 1 if quick else THOROUGH_BUDGET,
+        ensures_altered_position_fails=staticmethod(ensures_altered_position_fails),
+        note="every length, every position below 2**k, every bit below k",
+        __doc__=f"branch lengths {lo}..{hi}: flipping any position bit below the branch length changes the root the real function "
+                f"computes, EXCEPT where known finding C08-P1 applies (sibling at that level equals the running hash; excluded by "
+                f"`requires`) — hypothesis: no SHA-256 collision among the strings hashed in the two runs")))
+
+
+make_alter_content_proof(1, 3, True)
+make_alter_pos_proof(1, 2, True)
+for _k in (3, 4, 5):
+    make_alter_pos_proof(_k, _k, False)         # generation cost grows with 4**k (two runs): length 6 only bounded
+for _k in (4, 5, 6):
+    make_alter_content_proof(_k, _k, False)
+
+
+# ---------------------------------------------------------------- bounded stand-ins: every block of 1..64 transactions
+
+_BLOCKS = {}
+BLOCK_HEIGHT, FILE_SIZE = 5, 10
+
+
+def block(n):
+    """a block of n (input-less) transactions: (locktimes, leaves, header file with the block's root at BLOCK_HEIGHT)"""
+    if n not in _BLOCKS:
+        locktimes = [1000 * n + i for i in range(n)]
+        leaves = [tx_leaf(1, lt) for lt in locktimes]
+        _BLOCKS[n] = (locktimes, leaves, make_blob(FILE_SIZE, {BLOCK_HEIGHT: merkle_root(leaves)}))
+    return _BLOCKS[n]
+
+
+async def spv(version, locktime, height, blob, sib, pos):
+    tx = Transaction(version=version, locktime=locktime)
+    ledger = FakeLedger(header_store(blob, FILE_SIZE), FakeNetwork())
+    try:
+        await Ledger.maybe_verify_transaction(ledger, tx, height, {'merkle': sib, 'pos': pos, 'block_height': BLOCK_HEIGHT})
+    except ValueError:
+        pass
+    return tx.is_verified, tx.position
+
+
+def flip_hex(s, byte):
+    b = bytearray(unhexlify(s))
+    b[byte] ^= 1
+    return hexlify(bytes(b)).decode()
+
+
+def block_position_bit_is_blind(n, index, j):
+    """known finding C08-P1 on a genuine proof of transaction `index` of an n-transaction block"""
+    locktimes, leaves, blob = block(n)
+    return position_bit_is_blind(leaves[index], merkle_branch(leaves, index), index, j)
+
+
+def single_mutations(n, index):
+    """every single mutation of the genuine proof except position bits: (label, version, locktime, height, branch, pos)"""
+    locktimes, leaves, blob = block(n)
+    lt = locktimes[index]
+    branch = [wire(s) for s in merkle_branch(leaves, index)]
+    k = len(branch)
+    out = []
+    for e in range(k):
+        for byte in (0, 31):
+            out.append((f"branch[{e}] byte {byte}", 1, lt, BLOCK_HEIGHT, branch[:e] + [flip_hex(branch[e], byte)] + branch[e + 1:], index))
+        if e + 1 < k:
+            out.append((f"branch[{e}] swapped with the next", 1, lt, BLOCK_HEIGHT,
+                        branch[:e] + [branch[e + 1], branch[e]] + branch[e + 2:], index))
+    if k:
+        out.append(("last element dropped", 1, lt, BLOCK_HEIGHT, branch[:-1], index))
+        out.append(("first element dropped", 1, lt, BLOCK_HEIGHT, branch[1:], index))
+        out.append(("last element repeated", 1, lt, BLOCK_HEIGHT, branch + [branch[-1]], index))
+    out.append(("zero hash appended", 1, lt, BLOCK_HEIGHT, branch + [wire(bytes(32))], index))
+    out.append(("own hash appended", 1, lt, BLOCK_HEIGHT, branch + [wire(leaves[index])], index))
+    for b in range(8):
+        out.append((f"locktime bit {4 * b}", 1, lt ^ (1 << (4 * b)), BLOCK_HEIGHT, branch, index))
+        out.append((f"version bit {4 * b}", 1 ^ (1 << (4 * b)), lt, BLOCK_HEIGHT, branch, index))
+    for h in (BLOCK_HEIGHT - 1, BLOCK_HEIGHT + 1, FILE_SIZE - 1, FILE_SIZE, FILE_SIZE + 7, 0, -1):
+        out.append((f"height {h}", 1, lt, h, branch, index))
+    for j in range(k):
+        if not block_position_bit_is_blind(n, index, j):
+            out.append((f"position bit {j}", 1, lt, BLOCK_HEIGHT, branch, flip_bit(index, j)))
+    return out
+
+
+@proof("C08", "blocks[1..64]")
+class Blocks:
+    """BOUNDED stand-in (real code, real SHA-256, no deductive part): for every block of 1..64 transactions and every index the
+    genuine proof is accepted by maybe_verify_transaction over a header file holding the block's root, with the position
+    recorded, and EVERY single mutation of it is rejected: each branch element (a bit in its first / last byte, neighbours
+    swapped), branch truncated at either end or extended, 16 single-bit changes of the transaction, 7 other heights (next,
+    previous, tip, beyond the tip, 0, negative), every position bit that known finding C08-P1 does not cover"""
+    bounded_only = True
+    note = "all 2080 (block size 1..64, index) pairs x all single mutations listed in the doc string (about 45 per pair)"
+    inputs = dict(n=TInt(1, 64), index=TInt(0, 63))
+
+    def requires(n, index):
+        return 1 <= n <= 64 and 0 <= index < n
+
+    async def run(n, index):
+        locktimes, leaves, blob = block(n)
+        branch = [wire(s) for s in merkle_branch(leaves, index)]
+        genuine = await spv(1, locktimes[index], BLOCK_HEIGHT, blob, branch, index)
+        upper = await spv(1, locktimes[index], BLOCK_HEIGHT, blob, [s.upper() for s in branch], index)
+        accepted = []
+        for label, version, locktime, height, sib, pos in single_mutations(n, index):
+            got = await spv(version, locktime, height, blob, sib, pos)
+            if got[0]:
+                accepted.append(label)
+        return genuine, upper, accepted, len(branch)
+
+    def ensures_genuine_proof_accepted_and_position_recorded(index, result):
+        return result[0] == (True, index) and result[1] == (True, index)
+
+    def ensures_every_single_mutation_rejected(result):
+        return result[2] == []
+
+    def ensures_branch_length_is_tree_height(n, result):
+        return 2 ** result[3] >= n and (result[3] == 0 or 2 ** (result[3] - 1) < n)
+
+    def samples():
+        for n in range(1, 65):
+            for index in range(n):
+                yield dict(n=n, index=index)
+
+
+@proof("C08", "position-bound[1..64]")
+class PositionBound:
+    """BOUNDED stand-in for the clause "altering the position makes verification fail", stated WITHOUT exclusion: for every block
+    of 1..64 transactions, every index and every position bit 0..branch length, the genuine proof with that bit flipped is
+    rejected.  The real code violates it exactly where `block_position_bit_is_blind` holds: KNOWN FINDING C08-P1 (the check
+    prints KNOWN-FINDING; a violation outside the predicate still alarms)"""
+    bounded_only = True
+    note = "all 2080 (block size, index) pairs x every bit 0..branch length (14 tsd. cases)"
+    inputs = dict(n=TInt(1, 64), index=TInt(0, 63), j=TInt(0, 6))
+
+    def requires(n, index, j):
+        return 1 <= n <= 64 and 0 <= index < n and 0 <= j
+
+    async def run(n, index, j):
+        locktimes, leaves, blob = block(n)
+        branch = [wire(s) for s in merkle_branch(leaves, index)]
+        return await spv(1, locktimes[index], BLOCK_HEIGHT, blob, branch, flip_bit(index, j))
+
+    def ensures_altered_position_fails(result):
+        return result[0] == False    # noqa
+
+    def samples():
+        for n in range(1, 65):
+            for index in range(n):
+                for j in range(len(merkle_levels(block(n)[1]))):
+                    yield dict(n=n, index=index, j=j)
+
+
+# ---------------------------------------------------------------- bounded stand-in: legacy claim-trie proof checker
+
+def claim_value_hash(txhash, nout, takeover):
+    """lbrycrd getValueHash: Hash(Hash(txid) | Hash(decimal nOut) | Hash(big-endian 64-bit takeover height))"""
+    return dsha(dsha(txhash) + dsha(str(nout).encode()) + dsha(takeover.to_bytes(8, 'big')))
+
+
+def trie_of(claims):
+    """character trie (one node per byte of the UTF-8 name) of {name: (txhash, nout, takeover)}"""
+    root = {'children': {}, 'value': None}
+    for name, value in claims.items():
+        node = root
+        for ch in name.encode('utf-8'):
+            node = node['children'].setdefault(ch, {'children': {}, 'value': None})
+        node['value'] = value
+    return root
+
+
+def trie_hash(node):
+    """legacy claim trie node hash: Hash(for each child in byte order: byte | child hash, then the value hash if any)"""
+    s = b''
+    for ch in sorted(node['children']):
+        s += bytes([ch]) + trie_hash(node['children'][ch])
+    if node['value'] is not None:
+        s += claim_value_hash(*node['value'])
+    return dsha(s)
+
+
+def trie_proof(root, name):
+    """proof of the claim stored under `name` in the format of lbrycrd getnameproof (nodes from the root down)"""
+    path = name.encode('utf-8')
+    nodes = []
+    node = root
+    for depth in range(len(path) + 1):
+        nxt = path[depth] if depth < len(path) else None
+        entry = {'children': []}
+        for ch in sorted(node['children']):
+            child = {'character': ch}
+            if ch != nxt:
+                child['nodeHash'] = wire(trie_hash(node['children'][ch]))
+            entry['children'].append(child)
+        if nxt is not None and node['value'] is not None:
+            entry['valueHash'] = wire(claim_value_hash(*node['value']))
+        nodes.append(entry)
+        if nxt is not None:
+            node = node['children'][nxt]
+    txhash, nout, takeover = node['value']
+    return {'nodes': nodes, 'txhash': wire(txhash), 'nOut': nout, 'last takeover height': takeover}
+
+
+TRIES = [
+    {'a': (dsha(b'1'), 0, 10)},
+    {'a': (dsha(b'1'), 0, 10), 'b': (dsha(b'2'), 1, 5)},
+    {'a': (dsha(b'1'), 0, 10), 'ab': (dsha(b'2'), 1, 5), 'abc': (dsha(b'3'), 2, 7), 'abd': (dsha(b'4'), 0, 8), 'x': (dsha(b'5'), 3, 1)},
+    {'lbry': (dsha(b'6'), 7, 400000), 'lbc': (dsha(b'7'), 0, 3), 'l': (dsha(b'8'), 1, 2), 'm\xe9': (dsha(b'9'), 2, 2 ** 40)},
+]
+
+
+def claim_proof_mutations(proof, root_hex, name):
+    import copy
+    out = [("root hash", proof, flip_hex(root_hex, 0), name), ("root hash", proof, flip_hex(root_hex, 31), name),
+           ("other name", proof, root_hex, name + 'z'), ("other name", proof, root_hex, 'q' + name[1:])]
+    for field, alt in (('txhash', flip_hex(proof['txhash'], 5)), ('nOut', proof['nOut'] + 1),
+                       ('last takeover height', proof['last takeover height'] + 1)):
+        m = copy.deepcopy(proof)
+        m[field] = alt
+        out.append((field, m, root_hex, name))
+    for i, node in enumerate(proof['nodes']):
+        if 'valueHash' in node:
+            m = copy.deepcopy(proof)
+            m['nodes'][i]['valueHash'] = flip_hex(node['valueHash'], 9)
+            out.append((f"valueHash of node {i}", m, root_hex, name))
+            m = copy.deepcopy(proof)
+            del m['nodes'][i]['valueHash']
+            out.append((f"valueHash of node {i} removed", m, root_hex, name))
+        for c, child in enumerate(node['children']):
+            m = copy.deepcopy(proof)
+            m['nodes'][i]['children'][c]['character'] = (child['character'] + 1) % 256
+            out.append((f"character of child {c} of node {i}", m, root_hex, name))
+            if 'nodeHash' in child:
+                m = copy.deepcopy(proof)
+                m['nodes'][i]['children'][c]['nodeHash'] = flip_hex(child['nodeHash'], 17)
+                out.append((f"nodeHash of child {c} of node {i}", m, root_hex, name))
+            m = copy.deepcopy(proof)
+            del m['nodes'][i]['children'][c]
+            out.append((f"child {c} of node {i} removed", m, root_hex, name))
+    if len(proof['nodes']) > 1:
+        m = copy.deepcopy(proof)
+        del m['nodes'][-1]
+        out.append(("last node removed", m, root_hex, name))
+    return out
+
+
+def claim_proof_accepted(proof, root_hex, name):
+    try:
+        return claim_proofs.verify_proof(proof, root_hex, name) is True
+    except claim_proofs.InvalidProofError:
+        return False
+
+
+@proof("C08", "claimtrie.verify_proof")
+class ClaimTrie:
+    """BOUNDED stand-in (legacy checker, not called by the wallet any more; loop-heavy over dicts, outside the generator's
+    reach): on 4 small claim tries built from the lbrycrd definition every claim's genuine proof is accepted against the trie
+    root, and every single mutation (root hash, name, txhash, nOut, takeover height, each node hash / value hash / child
+    character, removed child / value hash / node) is refused with InvalidProofError — no other exception"""
+    bounded_only = True
+    note = "4 tries (1, 2, 5, 4 claims, names up to 4 bytes incl. a two-byte UTF-8 character), every claim, about 20-40 single mutations each"
+    inputs = dict(t=TInt(0, 3), which=TInt(0, 4))
+
+    def requires(t, which):
+        return 0 <= t < len(TRIES) and 0 <= which < len(TRIES[t])
+
+    def run(t, which):
+        claims = TRIES[t]
+        name = sorted(claims)[which]
+        root = trie_of(claims)
+        root_hex = wire(trie_hash(root))
+        genuine = trie_proof(root, name)
+        accepted = [label for label, m, r, nm in claim_proof_mutations(genuine, root_hex, name) if claim_proof_accepted(m, r, nm)]
+        return claim_proof_accepted(genuine, root_hex, name), accepted
+
+    def ensures_genuine_accepted(result):
+        return result[0] is True
+
+    def ensures_every_single_mutation_refused(result):
+        return result[1] == []
+
+    def samples():
+        for t in range(len(TRIES)):
+            for which in range(len(TRIES[t])):
+                yield dict(t=t, which=which)
+
+
+TRUSTED = [
+    "hashlib.sha256 is a function of the bytes fed (uninterpreted, 32-byte result); nothing else is assumed about it except, in "
+    "the alter-* proofs only, the NAMED HYPOTHESIS no_collision: no SHA-256 collision between the corresponding strings hashed in "
+    "the two runs compared (instances are listed in each proof's `requires`)",
+    "binascii.hexlify / unhexlify: unhexlify(hexlify(x)) == x, len(hexlify(x)) == 2 len(x), hexlify(x) is lower-case hex; unhexlify "
+    "raises (a ValueError subclass) exactly on strings that are not an even number of hex digits; bytes[::-1] is an involution",
+    "struct.unpack('<I' / '<III') in Headers.deserialize: little-endian unsigned fields, struct.error unless the length fits; "
+    "int.to_bytes(4, 'little') for the version / locktime of the harness transaction",
+    "call-site contract of the network: retriable_call(f, *args) returns what f(*args) returns; get_merkle / "
+    "get_transaction_batch return ARBITRARY replies (symbolic) — nothing a server sends is trusted",
+    "asyncio.Lock() in Headers.__init__ is not touched by the functions under contract (no chunk_getter installed)",
+]
+NOT_DECIDED = [
+    "that the header stored at a height is itself valid (proof of work, linkage): property C07; here the header file is arbitrary",
+    "mutations deductively: only transaction hash / branch content for branch lengths 1..3 (quick), 4..6 (thorough) and position "
+    "bits for lengths 1..2 (quick), 3..5 (thorough), under the no-collision hypothesis; branch-length mutations (they need more than collision-freeness: no hash "
+    "equals a half of its own pre-image chain) and height mutations (they need distinct Merkle roots at distinct heights) are "
+    "covered only by the bounded stand-in blocks[1..64]",
+    "that a transaction's recorded id is the hash of its bytes for transactions with inputs and outputs (C05); the harness "
+    "transaction has none; _single_batch is run on two concrete serialised transactions",
+    "wallet/manager.py get_transaction (second caller of maybe_verify_transaction): read, it passes a freshly parsed transaction "
+    "and the server's block_height as the height; not under contract",
+    "completeness deductively for block sizes 18..30, 34..46, 49..62 (generation and solver cost; every size 1..64 and every index "
+    "is exercised by the bounded stand-in blocks[1..64] with concrete leaves)",
+    "genesis block (height 0): the wallet's height convention uses 0 for 'in mempool', such a transaction is never verified",
+    "claim_proofs.verify_proof: bounded stand-in only (dead code in the wallet)",
+    "64-byte transactions / inner nodes offered as leaves (the classic SPV leaf-node ambiguity) — outside the statement",
+]
+ASSUMPTIONS = [
+    "the header file holds exactly `size` 112-byte headers (len(blob) == 112 * size), as Headers.open establishes",
+    "completeness (a genuine proof is accepted) is stated for heights 1 .. number of headers - 1",
+    "the flag before the call (`prior`) is arbitrary in verify[*]; 'never reported verified without header' is stated for prior "
+    "False, which _single_batch establishes (proof single_batch) by parsing a fresh Transaction",
+]
